@@ -171,6 +171,9 @@ def main():
     caps = plan.get("caps", {})
     htimeout = caps.get(tier + "_timeout", 300 if tier == "quick" else 1200)
     rss = caps.get("rss_gb", 10)
+    if os.environ.get("VERIF_RSS_GB"):
+        rss = float(os.environ["VERIF_RSS_GB"])
+        caps = dict(caps, heavy_rss_gb=rss)
     results = {}
     metas = []
     logdir = os.path.join(ws.CACHE, "logs")
@@ -183,7 +186,7 @@ def main():
             gens.setdefault(h.where[1], []).append(h)
         texts = {}
         for relp, hl in gens.items():
-            texts[relp] = model.module_text(prop, hl, plan.get("incrate_prelude", {}).get((crate, relp), ""))
+            texts[relp] = model.module_text(prop, hl, "  use paste::paste;\n" + plan.get("incrate_prelude", {}).get((crate, relp), ""))
         tag = "%s-%s-%d-%s" % (prop, crate, n, tier)
         extra = ["--no-default-features", "--features", slc] if slc else []
         heavy = any(getattr(h, "heavy", False) for h in lst)
